@@ -27,6 +27,7 @@ type liveOpts struct {
 	skipImages  bool
 	aaChallenge []byte
 	wrongPw     bool
+	afterSetup  func() // optional: runs after the reader is configured, before ReadDocument
 }
 
 func trustPool(certs [][]byte) *cms.GenericCertPool {
@@ -76,6 +77,9 @@ func liveRead(p *perso.Perso, card *chipsim.Card, lo liveOpts, wrap func(next fu
 		if _, err := rd.WithAAChallenge(lo.aaChallenge); err != nil {
 			return liveResult{err: fmt.Errorf("WithAAChallenge: %w", err)}
 		}
+	}
+	if lo.afterSetup != nil {
+		lo.afterSetup()
 	}
 	pw, err := passwordFor(p)
 	if err != nil {
